@@ -157,6 +157,42 @@ theorem C01_replication_expanded_clean (P : Prims) (T : Tables) (f : Nat) (id : 
       = (iterN (yOf id) (flatWalk P T f body) s >>= flatWalk P T f rest) := by
   rw [C01_replication_expanded P T f id body rest h1 h2 hy hx, memberPrelude_none hs]
 
+/-- "Replication EXPANDED": when nothing is pending and the scopes inside the replicated descriptors
+    are closed, reading `1XXYYY :: body ++ rest` is literally reading `body` written out YYY times,
+    followed by `rest`. -/
+theorem C01_replication_unrolled (P : Prims) (T : Tables) (f : Nat) (id : Nat) (body rest : List Nat)
+    (h1 : 100000 ≤ id) (h2 : id < 200000) (hy : yOf id ≠ 0) (hx : body.length = xOf id)
+    (hclosed : scopesClosed body = true) (s : St) (hs : NoPending s) :
+    flatWalk P T f (id :: (body ++ rest)) s
+      = flatWalk P T f ((List.replicate (yOf id) body).flatten ++ rest) s := by
+  rw [C01_replication_expanded_clean P T f id body rest h1 h2 hy hx s hs,
+    flatWalk_append P T f _ rest (scopesClosed_replicate _ _ hclosed), iterN_flat P T f body hclosed]
+
+/-- repeating a closed list `n` times is reading its `n`-fold concatenation (any state) -/
+theorem C01_iterN_unrolled (P : Prims) (T : Tables) (f : Nat) (body : List Nat)
+    (hclosed : scopesClosed body = true) (n : Nat) (s : St) :
+    iterN n (flatWalk P T f body) s = flatWalk P T f (List.replicate n body).flatten s :=
+  iterN_flat P T f body hclosed n s
+
+/-- What the flat reading (and the implementation) does when a 206YYY skip is pending in front of a
+    replication descriptor (FM-94 leaves this undefined; `fm94Strict` excludes it): ONE field of YYY
+    bits stands for the replication descriptor together with its whole scope. -/
+theorem C01_skip_pending_on_replication (P : Prims) (T : Tables) (f : Nat) (id : Nat) (body rest : List Nat)
+    (h1 : 100000 ≤ id) (h2 : id < 200000) (hy : yOf id ≠ 0) (hx : body.length = xOf id)
+    (s : St) (hdnp : s.regs.dnpCount = 0) (hskip : s.regs.nbitsSkipped ≠ 0) :
+    flatWalk P T f (id :: (body ++ rest)) s
+      = (P.codeflag (.skipped id s.regs.nbitsSkipped) s.regs.nbitsSkipped s
+          >>= fun s' => flatWalk P T f rest (s'.setRegs fun r => { r with nbitsSkipped := 0 })) := by
+  rw [C01_replication_expanded P T f id body rest h1 h2 hy hx]
+  simp only [memberPrelude, memberRules, hdnp, hskip, ne_eq, not_true_eq_false, not_false_eq_true,
+    decide_false, Bool.false_and, if_false, if_true, ite_self, Bool.false_eq_true]
+  cases P.codeflag (.skipped id s.regs.nbitsSkipped) s.regs.nbitsSkipped s <;> rfl
+
+/-- the strict FM-94 well-formedness implies the hypothesis of the equivalence theorem -/
+theorem C01_fm94Strict_wfflat (T : Tables) (depth : Nat) (ids : List Nat)
+    (h : fm94Strict T depth ids = true) : WFflat T depth ids :=
+  fm94Strict_wf T depth ids h
+
 /-- Regulation 94.5.5, delayed replication `1XX000`: the descriptor that follows is the factor (an
     element descriptor, not counted among the XX and not a member); its value is the number of times
     the next XX descriptors are repeated. -/
@@ -326,6 +362,18 @@ example (P : Prims) (s : St) (hs : NoPending s) :
   C01_replication_expanded_clean P exT 0 102002 [2001, 12001] [] (by decide) (by decide) (by decide) (by decide) s hs
 
 example : NoPending ({ bits := exBits, vals := [[]] } : St) := ⟨rfl, rfl, rfl⟩
+
+/-- `102002 2001 12001` is `2001 12001 2001 12001`, and `301001` is its row, literally -/
+example (P : Prims) (s : St) (hs : NoPending s) :
+    flatWalk P exT 0 (102002 :: ([2001, 12001] ++ [1001])) s
+      = flatWalk P exT 0 ([2001, 12001, 2001, 12001] ++ [1001]) s :=
+  C01_replication_unrolled P exT 0 102002 [2001, 12001] [1001] (by decide) (by decide) (by decide) (by decide)
+    (by simp [scopesClosed]) s hs
+
+example (P : Prims) (s : St) (hs : NoPending s) :
+    flatWalk P exT 1 (301001 :: [1001]) s = flatWalk P exT 1 ([1001, 102002, 2001, 12001] ++ [1001]) s :=
+  C01_sequence_replaced P exT 0 301001 _ [1001] (by decide) (by simp [exT])
+    (by simp [WFflat, wfCount, exT, xOf, yOf]) (by simp [scopesClosed, xOf, yOf]) s hs
 
 /-- Outside `WFflat` the two readings fail differently: a delayed replication without factor at the
     end of the list.  The tree is never built (`Err.other`); the flat reading decodes the first
